@@ -141,5 +141,5 @@ class SourceRef:
 
     @staticmethod
     def get_refs():
-        """Get all refs."""
-        return REFS
+        """Get all refs (a copy: the table is cleared and refilled by the next compilation)."""
+        return list(REFS)
